@@ -152,38 +152,54 @@ func decoderCases(ds []decoder) []decCase {
 				out = append(out, decCase{di, fmt.Sprintf("valid%d cut=%d", vi, cut), v[:cut]})
 			}
 		}
-		base := d.valid[0]
-		for fi, f := range d.fields {
-			if f.off+f.width > len(base) {
+		for bi, base := range d.valid {
+			if bi > 0 && len(base) > 64 {
 				continue
 			}
-			tv := get(base, f)
-			vals := append([]uint64{}, lens...)
-			vals = append(vals, tv-1, tv+1, tv+2)
-			seen := map[uint64]bool{}
-			for _, val := range vals {
-				if f.width < 8 && val >= 1<<(8*uint(f.width)) {
+			for fi, f := range d.fields {
+				if f.off+f.width > len(base) {
 					continue
 				}
-				if seen[val] {
+				tv := get(base, f)
+				vals := append([]uint64{}, lens...)
+				vals = append(vals, tv-1, tv+1, tv+2)
+				seen := map[uint64]bool{}
+				for _, val := range vals {
+					if f.width < 8 && val >= 1<<(8*uint(f.width)) {
+						continue
+					}
+					if seen[val] {
+						continue
+					}
+					seen[val] = true
+					x := put(base, f, val)
+					out = append(out, decCase{di, fmt.Sprintf("valid%d field%d=%d", bi, fi, val), x})
+					if len(base) <= 64 {
+						for _, e := range d.enums {
+							if e >= len(base) || (e >= f.off && e < f.off+f.width) {
+								continue
+							}
+							for v := 0; v < 256; v++ {
+								y := append([]byte{}, x...)
+								y[e] = byte(v)
+								out = append(out, decCase{di, fmt.Sprintf("valid%d field%d=%d byte%d=%d", bi, fi, val, e, v), y})
+							}
+						}
+					}
+					// the altered message truncated right after the field and padded with a long tail
+					out = append(out, decCase{di, fmt.Sprintf("valid%d field%d=%d cut-after-field", bi, fi, val), x[:f.off+f.width]})
+					out = append(out, decCase{di, fmt.Sprintf("valid%d field%d=%d +300 bytes", bi, fi, val), append(append([]byte{}, x...), bytes.Repeat([]byte{0x41}, 300)...)})
+				}
+			}
+			for _, e := range d.enums {
+				if e >= len(base) {
 					continue
 				}
-				seen[val] = true
-				x := put(base, f, val)
-				out = append(out, decCase{di, fmt.Sprintf("field%d=%d", fi, val), x})
-				// the altered message truncated right after the field and padded with a long tail
-				out = append(out, decCase{di, fmt.Sprintf("field%d=%d cut-after-field", fi, val), x[:f.off+f.width]})
-				out = append(out, decCase{di, fmt.Sprintf("field%d=%d +300 bytes", fi, val), append(append([]byte{}, x...), bytes.Repeat([]byte{0x41}, 300)...)})
-			}
-		}
-		for _, e := range d.enums {
-			if e >= len(base) {
-				continue
-			}
-			for v := 0; v < 256; v++ {
-				x := append([]byte{}, base...)
-				x[e] = byte(v)
-				out = append(out, decCase{di, fmt.Sprintf("byte%d=%d", e, v), x})
+				for v := 0; v < 256; v++ {
+					x := append([]byte{}, base...)
+					x[e] = byte(v)
+					out = append(out, decCase{di, fmt.Sprintf("valid%d byte%d=%d", bi, e, v), x})
+				}
 			}
 		}
 	}
@@ -193,13 +209,13 @@ func decoderCases(ds []decoder) []decCase {
 // ---------------- part B: frames ----------------
 
 type frameCase struct {
-	State int    `json:"state"` // 0 no such tube, 1 initiated idle, 2 data in flight, 3 FIN sent, 4 closed not reaped, 5 unreliable tube
+	State int    `json:"state"` // 0 no such tube, 1 initiated idle, 2 data in flight, 3 FIN sent, 4 closed not reaped, 5 unreliable tube, 6 Stop in progress
 	Raw   []byte `json:"raw"`
 	Desc  string `json:"desc"`
 	Two   []byte `json:"second,omitempty"`
 }
 
-var stateNames = []string{"no-such-tube", "initiated-idle", "data-in-flight", "fin-sent", "closed-not-reaped", "unreliable"}
+var stateNames = []string{"no-such-tube", "initiated-idle", "data-in-flight", "fin-sent", "closed-not-reaped", "unreliable", "muxer-stopping"}
 
 func mkFrame(id, flags byte, dl uint16, ack, fno uint32, data []byte) []byte {
 	b := []byte{id, flags, 0, 0, 0, 0, 0, 0, 0, 0, 0, 0}
@@ -335,6 +351,10 @@ func runFrameCase(c frameCase) []string {
 				case 3:
 					dropAcks = true
 					vt.Close()
+				case 6:
+					// the victim's Stop is in progress: its FIN for the target tube is never
+					// acknowledged, so the muxer sits in its stopping state until the fallback fires
+					dropAcks = true
 				case 4:
 					ct.Close()
 					vt.Close()
@@ -346,6 +366,21 @@ func runFrameCase(c frameCase) []string {
 		raw := append([]byte{}, c.Raw...)
 		if len(raw) > 0 && raw[0] == 0xFE {
 			raw[0] = target
+		}
+		if c.State == 6 {
+			t0 := vrt.Now()
+			var sw vsync.WaitGroup
+			sw.Add(1)
+			vrt.Go(func() { defer sw.Done(); victim.Stop() })
+			vrt.Sleep(100 * time.Millisecond)
+			m.SConn.Inject(raw)
+			sw.Wait()
+			if d := vrt.Since(t0); d > 5*time.Second {
+				vrt.Fail("Muxer.Stop took %v of virtual time with the frame arriving while it was stopping", d)
+			}
+			m.Client.Stop()
+			wg.Wait()
+			return
 		}
 		m.SConn.Inject(raw)
 		if c.Two != nil {
@@ -435,7 +470,7 @@ func main() {
 		}
 		r.Finish()
 	}
-	r.SetRule(fmt.Sprintf("A: %d decoder inputs over %d application-protocol decoders (intent request / communication, confirmation-or-denial, target info, proxy response, length-prefixed string, exec request, port-forward request, certificate, name, PEM): every truncation of valid encodings, every length field over {0,1,true-1,true+1,true+2,255,256,65535,65536,2^31-1,2^31,2^32-1} (as wide as the field), alone, cut right after the field and with a 300-byte tail, every enum byte over all 256 values; oracle: no panic, bytes allocated <= 64 KiB + 64 x input length. B: %d crafted frames (quick: every dimension against a baseline + flag pairs; thorough: full product of 64 flag combinations x {target tube, unknown tube} x 6 length-field values x 7 ack numbers x 7 frame numbers; plus short datagrams of 0..13 bytes) injected into a real muxer with the target tube in each of %v, executed deterministically under the controlled scheduler with a virtual clock; oracle: no thread panics, no deadlock, an untouched tube still echoes a probe, Stop returns within 5 virtual seconds, no thread left 15 virtual seconds later.", len(dcases), len(ds), len(fcases), stateNames))
+	r.SetRule(fmt.Sprintf("A: %d decoder inputs over %d application-protocol decoders (intent request / communication, confirmation-or-denial, target info, proxy response, length-prefixed string, exec request, port-forward request, certificate, name, PEM): every truncation of valid encodings, every length field over {0,1,true-1,true+1,true+2,255,256,65535,65536,2^31-1,2^31,2^32-1} (as wide as the field), alone, cut right after the field and with a 300-byte tail, every enum byte over all 256 values, and for messages of at most 64 bytes the product length value x enum byte x value; oracle: no panic, bytes allocated while decoding <= 1 MiB + 64 x input length (a 16-bit length field can legitimately cost 64 KiB; the process-wide allocation counter carries a few KiB of noise). B: %d crafted frames (quick: every dimension against a baseline + flag pairs; thorough: full product of 64 flag combinations x {target tube, unknown tube} x 6 length-field values x 7 ack numbers x 7 frame numbers; plus short datagrams of 0..13 bytes) injected into a real muxer with the target tube in each of %v, executed deterministically under the controlled scheduler with a virtual clock; oracle: no thread panics, no deadlock, an untouched tube still echoes a probe, Stop returns within 5 virtual seconds, no thread left 15 virtual seconds later.", len(dcases), len(ds), len(fcases), stateNames))
 	r.Isolated("decoders", len(dcases), func(i int) (string, any) {
 		return fmt.Sprintf("decoder:%s:crash", ds[dcases[i].Dec].name), dcases[i]
 	}, func(i int) vk.IsoResult {
@@ -449,7 +484,7 @@ func main() {
 		if pn != "" {
 			res.Problems = append(res.Problems, vk.Violation{Key: fmt.Sprintf("decoder:%s:panic", d.name), What: fmt.Sprintf("%s panics on input %q: %s", d.name, c.Desc, pn), Case: c})
 		}
-		if alloc := m1.TotalAlloc - m0.TotalAlloc; alloc > 64<<10+64*uint64(len(c.Input)) {
+		if alloc := m1.TotalAlloc - m0.TotalAlloc; alloc > 1<<20+64*uint64(len(c.Input)) {
 			res.Problems = append(res.Problems, vk.Violation{Key: fmt.Sprintf("decoder:%s:allocation", d.name), What: fmt.Sprintf("%s allocated %d bytes for a %d-byte input (%s)", d.name, alloc, len(c.Input), c.Desc), Case: c})
 		}
 		if i%1500 == 0 {
